@@ -86,6 +86,11 @@ impl<RS: Read + Seek> SeekableChain<RS> {
 
 impl<RS: Read + Seek> Read for SeekableChain<RS> {
     fn read(&mut self, buf: &mut [u8]) -> std::io::Result<usize> {
+        // skip readers that are empty (or already fully read) as returning 0 would signal EOF
+        while self.cur_idx < self.chain.len() && self.rel_pos >= self.chain[self.cur_idx].0 {
+            self.cur_idx += 1;
+            self.rel_pos = 0;
+        }
         if self.cur_idx >= self.chain.len() {
             Ok(0)
         } else {
